@@ -190,6 +190,15 @@ def decFactorC (s : St) : CM Val := do
   sameAsFirst heads
   headVal heads
 
+/-- the slice `values[-n:]` of one subset's value list (most recent first), in processing order -/
+def lastSlice (n : Nat) (l : List Val) : List Val := if n = 0 then l.reverse else (l.take n).reverse
+
+/-- `Decoder.define_bitmap` for compressed data (finding F24b repaired): the bit-map is that of subset 0 and the 031031
+    values of EVERY subset have to equal it, else `PyBufrKitError`.  Before the repair: `decLastValues` (subset 0 only). -/
+def decLastValuesC (n : Nat) (s : St) : CM (List Val) := do
+  let bm ← decLastValues n s
+  if s.vals.all (fun l => lastSlice n l == bm) then pure bm else .error .lib
+
 def decPrimsC : Prims where
   numeric := decNumericC
   string := decStringC
@@ -197,7 +206,7 @@ def decPrimsC : Prims where
   newRefval := decNewRefvalC
   constant := decConstant
   factorValue := decFactorC
-  lastValues := decLastValues
+  lastValues := decLastValuesC
 
 /-! ### `Decoder.process_template_data` -/
 
@@ -232,7 +241,7 @@ def decodeCompressed (tmpl : List Desc) (n : Nat) (bits : Bits) : CM (List Subse
 
 /-- the compressed decoder BEFORE the repair of finding F24 (`decFactorCLax`); used by
     `C09_compressed_missing_count_breaks` only -/
-def decPrimsCLax : Prims := { decPrimsC with factorValue := decFactorCLax }
+def decPrimsCLax : Prims := { decPrimsC with factorValue := decFactorCLax, lastValues := decLastValues }
 
 def decodeCompressedLax (tmpl : List Desc) (n : Nat) (bits : Bits) : CM (List SubsetOut × Bits) :=
   match walkList decPrimsCLax tmpl { bits := bits, vals := List.replicate n [] } with
